@@ -551,6 +551,18 @@ impl Parser {
                 Ok(Ty::Paren(Box::new(t)))
             }
             Tk::P("{") => self.object_type(),
+            // a tuple type that consists of one rest element, `[...T[]]`, denotes `T[]`; other tuple types
+            // are outside this interpreter's fragment
+            Tk::P("[") if matches!(self.peek_at(1), Tk::P("...")) => {
+                self.bump();
+                self.bump();
+                let t = self.ty()?;
+                self.expect_p("]")?;
+                match t {
+                    Ty::Array(_) | Ty::ReadonlyArray(_) => Ok(t),
+                    _ => self.err("rest element of a non-array type"),
+                }
+            }
             Tk::Str(s) => {
                 self.bump();
                 Ok(Ty::StrLit(s))
